@@ -349,7 +349,8 @@ class HistoryStream(Stream):
                  ", ".join("%s=%d" % kv for kv in sorted(t["fails"].items())) or "none"))
         try:
             from core import VERIF
-            with open(os.path.join(VERIF, "evidence", "C09-tie.json"), "w", encoding="utf-8") as fp:
+            os.makedirs(os.path.join(VERIF, "replays"), exist_ok=True)      # not an evidence file of the schema: kept with the run's scratch output
+            with open(os.path.join(VERIF, "replays", "C09-tie.json"), "w", encoding="utf-8") as fp:
                 json.dump(t, fp, indent=1, sort_keys=True)
         except Exception:
             pass
